@@ -6,3 +6,5 @@ package fp
 func verifPath(int) {}
 
 func verifWide() {}
+
+func verifScan(uint64, int, bool, bool, int, bool) {}
